@@ -12,6 +12,9 @@ var c17PathClasses = [][2]string{
 	{"plain", "f.txt"}, {"dash-only", "-"}, {"double-dash", "--"}, {"dash-help", "--help"}, {"dash-e", "-e"}, {"dash-in-dir", "sub/-"}, {"blank", "a b.txt"}, {"two-blanks", "a  b c.txt"}, {"subdir", "sub/f.txt"}, {"subdir-blank", "sub dir/f g.txt"}, {"dash", "-f.txt"}, {"dash-n", "-n"},
 	{"semicolon", "a;b"}, {"amp", "a&b"}, {"gt", "a>b"}, {"lt", "a<b"}, {"pipe", "a|b"}, {"star", "a*b"}, {"question", "a?b"}, {"brackets", "a[1]"}, {"braces", "{a,b}"},
 	{"dollar", "$x"}, {"cmdsubst", "$(touch CANARY_P)"}, {"backtick", "`touch CANARY_Q`"}, {"single-quote", "it's"}, {"double-quote", "a\"b"}, {"backslash", "a\\b"}, {"tab", "a\tb"}, {"hash", "#x"}, {"tilde", "~x"},
+	// paths spelled like the operator words of test / [ (a compound test of several words parses them as operators)
+	{"test-eq", "="}, {"test-eqeq", "=="}, {"test-ne", "!="}, {"test-lt", "<"}, {"test-gt", ">"}, {"test-ef", "-ef"}, {"test-nt", "-nt"}, {"test-ot", "-ot"}, {"test-int-eq", "-eq"}, {"test-int-lt", "-lt"},
+	{"test-and", "-a"}, {"test-or", "-o"}, {"test-not", "!"}, {"test-paren", "("}, {"test-close", ")"}, {"test-f", "-f"}, {"test-z", "-z"}, {"test-L", "-L"}, {"bracket", "["}, {"brackets2", "]"},
 	{"bang", "!x"}, {"unicode", "é ü.txt"}, {"dot-slash", "./f.txt"}, {"lead-blank", " lead"}, {"trail-blank", "trail "}, {"paren", "a(b)"}, {"equals", "a=b"}, {"percent", "%s%d"},
 }
 
@@ -177,6 +180,11 @@ func checkC17(c *Check) {
 			"path-writes":           {Write{Path: call("pathOf", il(1)), Data: sl("x")}, pr(framed(Read{sl("out 1.txt")}), framed(Read{sl("marker.txt")}))},
 			"path-and-data-write":   {Write{Path: call("pathOf", il(2)), Data: call("logged", sl("d"))}, pr(framed(Read{sl("out 2.txt")}), framed(Read{sl("marker.txt")}), framed(Read{sl("log file.txt")}))},
 			"all-three-write":       {Write{Path: sl("keep.txt"), Data: sl("first")}, Write{Path: sl("keep.txt"), Data: call("logged", sl("e")), Append: call("flagOn")}, pr(framed(Read{sl("keep.txt")}), framed(Read{sl("flag.txt")}), framed(Read{sl("log file.txt")}))},
+			// the data of a write is the content of the file it writes to (directly, not through a function)
+			"write-own-content-back":        {Write{Path: sl("own.txt"), Data: sl("keep me")}, Write{Path: sl("own.txt"), Data: Read{sl("own.txt")}}, pr(framed(Read{sl("own.txt")}))},
+			"append-own-content":            {Write{Path: sl("own.txt"), Data: sl("twice")}, Write{Path: sl("own.txt"), Data: Read{sl("own.txt")}, Append: bl(true)}, pr(framed(Read{sl("own.txt")}))},
+			"copy-between-files":            {Write{Path: sl("src.txt"), Data: sl("payload\n\n")}, Write{Path: sl("dst.txt"), Data: Read{sl("src.txt")}}, Write{Path: sl("dst.txt"), Data: Read{sl("src.txt")}, Append: bl(true)}, pr(framed(Read{sl("dst.txt")}), framed(Read{sl("src.txt")}))},
+			"write-own-content-in-function": {fn("again", []Param{{"p", TString}}, nil, Write{Path: vr("p"), Data: Read{vr("p")}}, Write{Path: vr("p"), Data: Read{vr("p")}, Append: bl(true)}), Write{Path: sl("f n.txt"), Data: sl("v")}, callS("again", sl("f n.txt")), pr(framed(Read{sl("f n.txt")}))},
 			"data-reads-target":     {Write{Path: sl("out.txt"), Data: sl("v1")}, Write{Path: sl("out.txt"), Data: bin("+", call("peek", sl("out.txt")), sl("+"))}, pr(framed(Read{sl("out.txt")}))},
 			"read-path-writes":      {Write{Path: sl("out 3.txt"), Data: sl("three")}, pr(framed(Read{call("pathOf", il(3))})), pr(framed(Read{sl("marker.txt")}))},
 			"exists-path-writes":    {pr(Exists{call("pathOf", il(4))}), Write{Path: sl("out 4.txt"), Data: sl("four")}, pr(Exists{call("pathOf", il(4))}), pr(framed(Read{sl("marker.txt")}))},
